@@ -1641,6 +1641,15 @@ class HTTP11ClientProtocol(Protocol):
 
     _finishResponse_TRANSMITTING = _finishResponse_WAITING
 
+    def _finishResponse_ABORTING(self, rest: bytes) -> None:
+        """
+        The response was completed (by the last bytes received, or by the
+        connection being lost for a response delimited by the end of the
+        connection) after L{abort} was called.  There is nothing to do:
+        the connection is already being closed and the parser is
+        disconnected when it is lost.
+        """
+
     def _disconnectParser(self, reason):
         """
         If there is still a parser, call its C{connectionLost} method with the
@@ -1649,6 +1658,16 @@ class HTTP11ClientProtocol(Protocol):
         @type reason: L{Failure}
         """
         if self._parser is not None:
+            if self._state == "TRANSMITTING":
+                # The response is over (one way or another) before the
+                # request was completely written, as in
+                # _finishResponse_TRANSMITTING: make sure whatever happens to
+                # the parser's Deferred reaches the request's Deferred, which
+                # nothing else is going to fire after this.
+                assert self._responseDeferred is not None
+                assert self._finishedRequest is not None
+                self._state = "TRANSMITTING_AFTER_RECEIVING_RESPONSE"
+                self._responseDeferred.chainDeferred(self._finishedRequest)
             parser = self._parser
             self._parser = None
             self._currentRequest = None
@@ -1753,6 +1772,14 @@ class HTTP11ClientProtocol(Protocol):
         if self._state == "CONNECTION_LOST":
             return succeed(None)
         self.transport.loseConnection()
+        if self._state == "TRANSMITTING":
+            # The request is not going to be written completely; what
+            # happens to the response from now on (in particular the failure
+            # produced when the connection is lost) is the result of the
+            # request.
+            assert self._responseDeferred is not None
+            assert self._finishedRequest is not None
+            self._responseDeferred.chainDeferred(self._finishedRequest)
         self._state = "ABORTING"
         d = Deferred()
         self._abortDeferreds.append(d)
